@@ -3,7 +3,7 @@
 exit 0: property held on everything decided (KNOWN-FINDING lines possible); 1: VIOLATION lines; 2: some obligation
 undecided (solver unknown) and no violation; 3: checker limitation / internal error (never a verdict)."""
 import argparse, importlib, os, sys, traceback
-from .common import Report, CheckerError, EXIT_CHECKER
+from .common import Report, CheckerError, LibraryCrash, EXIT_CHECKER
 from . import smt
 
 LEVELS = {}
@@ -21,6 +21,13 @@ def main():
     rep = Report(a.prop, a.tier, getattr(mod, "LEVEL", "proof"))
     try:
         mod.run(rep, a.tier)
+        rc = rep.finish()
+    except LibraryCrash as e:
+        # the library itself died of an unrelated error inside a stand-in: reported as a violation (C03's subject, and a failure
+        # of whatever property the stand-in was exercising), never as a broken checker
+        rep.violation(f"library crash inside {e.task}: {e.exc_line}", {"stand_in": e.task, "exception": e.exc_line, "innermost_frame": e.where,
+                      "note": "an exception that is not one of the library's own classes was raised inside src/pregex while the "
+                              "stand-in exercised it; the run was abandoned at that point"}, None, no_input=True)
         rc = rep.finish()
     except CheckerError as e:
         print(f"CHECKER-ERROR property={a.prop}: {e}")
